@@ -218,6 +218,12 @@ pub fn full_bundle_opts(text: &str, smith_seed: bool) -> Vec<(&'static str, Stri
     out.push(("multi_source", multi_source_opt_bundle(&parts, false, false)));
     out.push(("multi_source_adopt_orphans", multi_source_opt_bundle(&parts, true, false)));
     out.push(("multi_source_ignore_builtin", multi_source_opt_bundle(&parts, false, true)));
+    // two different sources registered under one and the same path (a path is only a label)
+    let same_path = vec![
+        (halves[0].clone(), "input.graphql".to_string()),
+        (halves[1].clone(), "input.graphql".to_string()),
+    ];
+    out.push(("multi_source_same_path", multi_source_opt_bundle(&same_path, false, false)));
     // apollo-smith generating operations against this very document (as its seed)
     if smith_seed && text.len() < 200_000 {
         let mut st = crate::core::rng::hash_str(text) ^ 0x5EED;
